@@ -62,7 +62,7 @@ def main(tier):
                 p, op, cfg, t0 = item
                 rc = p.poll()
                 if rc is None:
-                    if time.time() - t0 > (900 if tier == "quick" else 7200):
+                    if time.time() - t0 > (3600 if tier == "quick" else 4 * 3600):
                         p.kill()
                         p.wait()
                         run.inconclusive_because(f"child {cfg} hit the wall-clock watchdog (possible hang; inconclusive)")
